@@ -42,6 +42,34 @@
 (* Commit the reopened IAVL trees still know the half-committed version    *)
 (* n+1, so a non-proof query at height n+1 answers from it (dirty states   *)
 (* are excluded from the C14 invariants).                                  *)
+(*                                                                         *)
+(* LoadVersion on the LIVE handle (action LiveLoad(v), v >= 1): the call   *)
+(* is all-or-nothing.  If the target cannot be loaded (no commit info:     *)
+(* never committed / in the future; or some sub-store's IAVL version is    *)
+(* gone: pruned) it returns an error and NOTHING changes - version, hash,  *)
+(* working content including uncommitted writes, transient content, the    *)
+(* sub-store trees - so the next Commit produces what it would have        *)
+(* produced without the call; the handle keeps being used (writes, Commit, *)
+(* queries, reopen).  If the target loads, the handle moves to version v:  *)
+(* fresh sub-stores at cinfo[v] (uncommitted writes and the transient      *)
+(* content are gone), lastCommitID = commit id of v.  For v = latest this  *)
+(* is a reload and the history continues.  For v < latest the handle is    *)
+(* `rolled` back: its state (version, hash, content) is specified and      *)
+(* compared, and the only continuations modelled are further LoadVersion   *)
+(* calls (failing ones leave the rolled handle unchanged too; loading the  *)
+(* latest version ends the excursion) and dropping the handle (Crash,      *)
+(* Reopen).  EXCLUDED: writes and Commit on a rolled-back handle (a        *)
+(* rollback: iavl refuses to overwrite the later versions unless the       *)
+(* re-executed block is identical, commit infos of later versions are      *)
+(* overwritten - not use of the store the properties speak about), and     *)
+(* LoadVersion(0) on a live handle (see "LoadZeroLoadsLatest").            *)
+(*                                                                         *)
+(* The pruning options of a behaviour are either a pair <<keepRecent,      *)
+(* keepEvery>> handed to the store directly (strat = NoStrategy) or a      *)
+(* STRATEGY STRING as found in a node's configuration, resolved by         *)
+(* store.NewPruningOptionsFromString (store/store.go), transcribed in      *)
+(* StrategyOpts: the model's (kr, ke) come from the transcription, the     *)
+(* real store's from the real function (the driver calls it).              *)
 (***************************************************************************)
 EXTENDS Integers, Sequences, FiniteSets, TLC, Json
 
@@ -50,6 +78,7 @@ CONSTANTS
     TStore,      \* name of the transient store
     Keys, Vals,  \* keys and values the model writes
     Prunings,    \* set of <<keepRecent, keepEvery>> the run may be configured with
+    Strategies,  \* set of pruning strategy strings the run may be configured with instead
     MaxVer,      \* bound: multistore versions
     MaxWrites,   \* bound: writes per block
     MaxCrashes,  \* bound: crashes per behaviour
@@ -61,12 +90,19 @@ CONSTANTS
     CrashKind,   \* "any": crashes may hit a running Commit; "clean": only between commits (restarts)
     ObsKind,     \* which observation tables a recorded behaviour carries: subset of {"loads","queries"}
     TransientFirst, \* TRUE: explore only "transient store commits first" (see CommitSave)
-    PrunSel      \* indices into PruningSeq (a cfg cannot write tuples); Prunings <- PruningsSel
+    PrunSel,     \* indices into PruningSeq (a cfg cannot write tuples); Prunings <- PruningsSel
+    MaxLoads,    \* bound (recording only): LoadVersion calls on the live handle per block
+    LoadScope    \* "any": LoadVersion on the live handle at any idle moment (recording, traces);
+                 \* "blockstart": only while the running block has no writes yet (the exhaustive
+                 \* configurations: with uncommitted writes the step differs only in keeping them
+                 \* (failure) or dropping them (success), by construction of the action), and a
+                 \* rolled-back handle only returns to the latest version
 
 AllStores == Stores \cup {TStore}
 
 VARIABLES
     kr, ke,          \* pruning options (chosen at Init)
+    strat,           \* the strategy string they were resolved from (NoStrategy: the pair was given)
     spal,            \* the options are given to the store AFTER LoadVersion (SetPruning on the live
                      \* store forwards them to the loaded sub-stores) instead of before it: the rule
                      \* the sub-stores prune by is the same in both orders (varied when recording)
@@ -76,6 +112,7 @@ VARIABLES
     latest,          \* the "s/latest" marker (0 = absent)
     (* volatile: the live handle *)
     up,              \* a handle exists
+    rolled,          \* the live handle was moved to a version older than the latest by LoadVersion
     bricked,         \* reopening failed or Commit panicked: the node cannot come up any more
     hver, htok,      \* rootmulti lastCommitID (version, hash token)
     work,            \* work[s]  : working content of IAVL store s
@@ -94,13 +131,16 @@ VARIABLES
     crashes, dirty,  \* number of crashes; some crash hit a running commit
     budget,          \* writes the running block may have (varied only when recording)
     cplan,           \* steps at which the recorded behaviour crashes (CrashPlan)
+    lleft,           \* LoadVersion calls on the live handle still to come in this block (recording)
     (* recording *)
     hist, fin
 
 durable  == <<disk, cinfo, latest>>
-volatile == <<up, bricked, hver, htok, work, wops, tver, tvers, trans, pc, cids>>
-ghost    == <<blocks, committed, block, started, todo, crashes, dirty, budget, cplan>>
-vars     == <<kr, ke, spal, durable, volatile, ghost, hist, fin>>
+volatile == <<up, rolled, bricked, hver, htok, work, wops, tver, tvers, trans, pc, cids>>
+ghost    == <<blocks, committed, block, started, todo, crashes, dirty, budget, cplan, lleft>>
+conf     == <<kr, ke, spal, strat>>
+vars     == <<conf, durable, volatile, ghost, hist, fin>>
+(* strat is not in the view: two configurations with the same options behave alike *)
 view     == <<kr, ke, spal, durable, volatile, ghost>>
 
 -----------------------------------------------------------------------------
@@ -127,6 +167,21 @@ ContentAt(v) == IF v = 0 THEN EmptyAll ELSE committed[v]
    with L the latest version, keep L, the keepRecent versions before it, and every
    keepEvery-th version (keepEvery = 0: no waypoints, keepEvery = 1: everything) *)
 Retained(v, L) == v = L \/ (v < L /\ L - v <= kr) \/ (ke # 0 /\ v % ke = 0)
+
+(* store.NewPruningOptionsFromString (store/store.go) with the shipped options of
+   store/types/pruning.go, transcribed:
+     switch strategy { case "nothing": PruneNothing (0, 1)   case "everything": PruneEverything (0, 0)
+                       case "syncable": PruneSyncable (100, 10000)   default: PruneSyncable }
+   the comparison is exact: the empty string, another capitalisation and unknown words are "default" *)
+StrategyOpts(s) ==
+    CASE s = "nothing"    -> <<0, 1>>
+      [] s = "everything" -> <<0, 0>>
+      [] s = "syncable"   -> <<100, 10000>>
+      [] OTHER            -> <<100, 10000>>
+NoStrategy == "<pair>"
+(* the configurations a behaviour may start from: <<strategy string, keepRecent, keepEvery>> *)
+Configs == {<<NoStrategy, p[1], p[2]>> : p \in Prunings}
+           \cup {<<s, StrategyOpts(s)[1], StrategyOpts(s)[2]>> : s \in Strategies}
 
 -----------------------------------------------------------------------------
 (* tokens *)
@@ -232,18 +287,21 @@ Running == ~fin /\ (~Record \/ Len(hist) < HistLen)
 MustCrash == CrashPlan /\ up /\ (Len(hist) + 1) \in cplan /\ (CrashKind = "clean" => Idle)
 Go == Running /\ ~MustCrash
 BudgetSet == IF Record THEN 0..MaxWrites ELSE {MaxWrites}
+(* recording: the number of LoadVersion calls of a block is 0 in a good half of the blocks *)
+LoadSet == IF Record THEN 0..(2 * MaxLoads) ELSE {0}
+LoadsOf(x) == IF x > MaxLoads THEN 0 ELSE x
 CrashPlans ==
     IF ~CrashPlan \/ MaxCrashes = 0 THEN {{}}
     ELSE IF MaxCrashes = 1 THEN {{}} \cup {{a} : a \in 2..HistLen}
     ELSE {{}} \cup {{a, b} : a \in 2..HistLen, b \in 2..HistLen}
 
 Init ==
-    /\ \E p \in Prunings : kr = p[1] /\ ke = p[2]
+    /\ \E c \in Configs : strat = c[1] /\ kr = c[2] /\ ke = c[3]
     /\ spal \in (IF Record THEN BOOLEAN ELSE {FALSE})
     /\ disk = [s \in Stores |-> [v \in {} |-> 0]]
     /\ cinfo = [v \in {} |-> 0]
     /\ latest = 0
-    /\ up = FALSE /\ bricked = FALSE
+    /\ up = FALSE /\ bricked = FALSE /\ rolled = FALSE
     /\ hver = 0 /\ htok = NoTok
     /\ work = EmptyAll /\ wops = [s \in Stores |-> <<>>]
     /\ tver = [s \in Stores |-> 0] /\ tvers = [s \in Stores |-> {}]
@@ -253,9 +311,11 @@ Init ==
     /\ blocks = <<>> /\ committed = <<>> /\ block = <<>> /\ started = FALSE /\ todo = <<>>
     /\ crashes = 0 /\ dirty = FALSE /\ budget = MaxWrites
     /\ cplan \in CrashPlans
+    /\ lleft = 0
     /\ hist = <<>> /\ fin = FALSE
 
 VolatileReset ==
+    /\ rolled' = FALSE
     /\ hver' = 0 /\ htok' = NoTok
     /\ work' = EmptyAll /\ wops' = [s \in Stores |-> <<>>]
     /\ tver' = [s \in Stores |-> 0] /\ tvers' = [s \in Stores |-> {}]
@@ -273,10 +333,10 @@ DoOp(o) ==
          /\ UNCHANGED trans
 
 Write(o) ==
-    /\ Go /\ up /\ Idle /\ todo = <<>> /\ ~started
+    /\ Go /\ up /\ Idle /\ todo = <<>> /\ ~started /\ ~rolled
     /\ Len(block) < budget
-    /\ UNCHANGED <<kr, ke, spal, durable, up, bricked, hver, htok, tver, tvers, pc, cids,
-                   blocks, committed, started, todo, crashes, dirty, budget, cplan>>
+    /\ UNCHANGED <<conf, durable, up, rolled, bricked, hver, htok, tver, tvers, pc, cids,
+                   blocks, committed, started, todo, crashes, dirty, budget, cplan, lleft>>
     /\ DoOp(o)
     /\ block' = Append(block, o)
     /\ Rec([a |-> "write", op |-> o, exp |-> ObsW'])
@@ -284,8 +344,8 @@ Write(o) ==
 (* re-execution of the interrupted block after a crash: the same writes again *)
 ReExec ==
     /\ Go /\ up /\ Idle /\ todo # <<>>
-    /\ UNCHANGED <<kr, ke, spal, durable, up, bricked, hver, htok, tver, tvers, pc, cids,
-                   blocks, committed, block, started, crashes, dirty, budget, cplan>>
+    /\ UNCHANGED <<conf, durable, up, rolled, bricked, hver, htok, tver, tvers, pc, cids,
+                   blocks, committed, block, started, crashes, dirty, budget, cplan, lleft>>
     /\ DoOp(Head(todo))
     /\ todo' = Tail(todo)
     /\ Rec([a |-> "write", op |-> Head(todo), re |-> TRUE, exp |-> ObsW'])
@@ -294,10 +354,12 @@ ReExec ==
 RefNext == [s \in Stores |-> ApplyOps(ContentAt(Len(committed))[s], OpsOf(s, block))]
 
 CommitStart ==
-    /\ Go /\ up /\ Idle /\ todo = <<>>
+    /\ Go /\ up /\ Idle /\ todo = <<>> /\ ~rolled
+    (* recording: the LoadVersion calls chosen for this block come before its Commit *)
+    /\ lleft = 0
     /\ hver < MaxVer /\ Len(committed) < MaxVer + (IF started THEN 1 ELSE 0)
-    /\ UNCHANGED <<kr, ke, spal, durable, up, bricked, hver, htok, work, wops, tver, tvers, trans,
-                   block, todo, crashes, dirty, budget, cplan>>
+    /\ UNCHANGED <<conf, durable, up, rolled, bricked, hver, htok, work, wops, tver, tvers, trans,
+                   block, todo, crashes, dirty, budget, cplan, lleft>>
     /\ pc' = [s \in AllStores |-> "todo"]
     /\ cids' = [s \in Stores |-> [ver |-> 0, tok |-> <<>>]]
     /\ IF started THEN UNCHANGED <<blocks, committed>>
@@ -320,7 +382,7 @@ CommitSave(s, tk) ==
     (* SaveVersion and the pruning delete are both inside iavl.Store.Commit: the next store is
        not saved before the previous one has pruned *)
     /\ "PruneBeforeFlush" \in Dev => \A t \in Stores \ {s} : pc[t] # "saved"
-    /\ UNCHANGED <<kr, ke, spal, cinfo, latest, hver, htok, work, trans, ghost>>
+    /\ UNCHANGED <<conf, cinfo, latest, rolled, hver, htok, work, trans, ghost>>
     /\ LET v == tver[s] + 1 IN
        IF v \in tvers[s] THEN
            IF disk[s][v].tok = tk THEN
@@ -359,7 +421,7 @@ ToRelease(s) ==
 CommitPrune(s) ==
     /\ Go /\ up /\ s \in Stores
     /\ IF "PruneBeforeFlush" \in Dev THEN pc[s] = "saved" ELSE pc[s] = "post"
-    /\ UNCHANGED <<kr, ke, spal, cinfo, latest, up, bricked, hver, htok, work, wops, tver, trans, cids, ghost>>
+    /\ UNCHANGED <<conf, cinfo, latest, up, rolled, bricked, hver, htok, work, wops, tver, trans, cids, ghost>>
     /\ pc' = [pc EXCEPT ![s] = IF "PruneBeforeFlush" \in Dev THEN "done" ELSE "idle"]
     /\ LET rel == ToRelease(s) IN
        /\ IF rel # 0
@@ -371,7 +433,7 @@ CommitPrune(s) ==
 (* transient.Store.Commit: a fresh MemDB *)
 CommitTransient ==
     /\ Go /\ up /\ pc[TStore] = "todo"
-    /\ UNCHANGED <<kr, ke, spal, durable, up, bricked, hver, htok, work, wops, tver, tvers, cids, ghost>>
+    /\ UNCHANGED <<conf, durable, up, rolled, bricked, hver, htok, work, wops, tver, tvers, cids, ghost>>
     /\ trans' = EmptyMap
     /\ pc' = [pc EXCEPT ![TStore] = "done"]
     /\ Rec([a |-> "tcommit", w |-> ""])
@@ -381,7 +443,7 @@ CommitFlush ==
     /\ Go /\ up
     /\ pc[TStore] = "done"
     /\ \A s \in Stores : pc[s] = IF "PruneBeforeFlush" \in Dev THEN "done" ELSE "saved"
-    /\ UNCHANGED <<kr, ke, spal, disk, up, bricked, work, wops, tver, tvers, trans, cids,
+    /\ UNCHANGED <<conf, disk, up, rolled, bricked, work, wops, tver, tvers, trans, cids,
                    blocks, committed, todo, crashes, dirty, cplan>>
     /\ LET v == hver + 1 IN
        /\ cinfo' = Extend(cinfo, v, cids)
@@ -391,6 +453,7 @@ CommitFlush ==
     /\ pc' = [s \in AllStores |-> IF "PruneBeforeFlush" \in Dev \/ s = TStore THEN "idle" ELSE "post"]
     /\ block' = <<>> /\ started' = FALSE
     /\ \E b \in BudgetSet : budget' = b
+    /\ \E n \in LoadSet : lleft' = LoadsOf(n)
     /\ Rec([a |-> "flush", w |-> "flush", v |-> hver', exp |-> Obs',
             obs |-> IF "PruneBeforeFlush" \in Dev THEN FullObs' ELSE [none |-> TRUE]])
 
@@ -399,26 +462,27 @@ Crash ==
     /\ Running /\ up /\ crashes < MaxCrashes
     /\ CrashPlan => MustCrash
     /\ CrashKind = "clean" => Idle
-    /\ UNCHANGED <<kr, ke, spal, durable, bricked, blocks, committed, block, started, todo, budget, cplan>>
+    /\ UNCHANGED <<conf, durable, bricked, blocks, committed, block, started, todo, budget, cplan>>
     /\ up' = FALSE
     /\ VolatileReset
     /\ crashes' = crashes + 1
+    /\ lleft' = 0
     /\ dirty' = (dirty \/ ~Idle)
     /\ Rec([a |-> "crash", incommit |-> ~Idle])
 
 (* NewStore + mounts + LoadLatestVersion on the durable state; also the very first open *)
 Reopen ==
     /\ Go /\ ~up /\ ~bricked
-    /\ UNCHANGED <<kr, ke, spal, durable, blocks, committed, crashes, dirty, cplan>>
+    /\ UNCHANGED <<conf, durable, blocks, committed, crashes, dirty, cplan>>
     /\ LET r == LoadMS(latest)
            allowed == IF started THEN {Len(committed) - 1, Len(committed)} ELSE {Len(committed)} IN
        IF ~r.ok THEN
            /\ bricked' = TRUE
-           /\ UNCHANGED <<up, hver, htok, work, wops, tver, tvers, trans, pc, cids, block, started,
-                          todo, budget>>
+           /\ UNCHANGED <<up, rolled, hver, htok, work, wops, tver, tvers, trans, pc, cids, block, started,
+                          todo, budget, lleft>>
            /\ Rec([a |-> "reopen", exp |-> [ok |-> FALSE], allowed |-> allowed, after |-> crashes])
        ELSE
-           /\ up' = TRUE /\ bricked' = FALSE
+           /\ up' = TRUE /\ bricked' = FALSE /\ rolled' = FALSE
            /\ hver' = r.ver /\ htok' = r.tok
            /\ tver' = [s \in Stores |-> r.trees[s].ver]
            /\ tvers' = [s \in Stores |-> r.trees[s].vers]
@@ -431,13 +495,52 @@ Reopen ==
               THEN block' = <<>> /\ started' = FALSE /\ todo' = <<>>
               ELSE block' = block /\ started' = started /\ todo' = block
            /\ \E b \in BudgetSet : budget' = IF b < Len(block') THEN Len(block') ELSE b
+           (* no LoadVersion excursions while an interrupted block awaits its re-execution *)
+           /\ \E n \in LoadSet : lleft' = IF started' THEN 0 ELSE LoadsOf(n)
            /\ Rec([a |-> "reopen", exp |-> [ok |-> TRUE] @@ Obs', allowed |-> allowed,
                    after |-> crashes, obs |-> FullObs'])
+
+(* ---- LoadVersion(v) on the live, idle handle (rootmulti.Store.LoadVersion, v >= 1) ------------
+   the commit info is read, every sub-store is loaded into a NEW map, and only when all of them
+   have loaded are lastCommitID and the store map replaced: all or nothing.  What "loads" means is
+   LoadMS, the same operator a fresh handle uses (the new sub-stores are fresh trees over the same
+   database; rs.pruningOpts are handed to them as at the first load). *)
+LiveLoad(v) ==
+    /\ Go /\ up /\ Idle /\ todo = <<>> /\ ~started
+    /\ v \in 1..(Len(committed) + 1)
+    /\ LoadScope = "blockstart" => (block = <<>> /\ (rolled => v = latest))
+    (* recording: as many calls as were chosen for this block; a rolled-back handle may always
+       return to the latest version *)
+    /\ Record => (lleft > 0 \/ (rolled /\ v = latest))
+    /\ UNCHANGED <<conf, durable, up, bricked, pc, cids, blocks, committed, started, todo, crashes,
+                   dirty, budget, cplan>>
+    /\ lleft' = IF lleft > 0 THEN lleft - 1 ELSE 0
+    /\ LET r == LoadMS(v) IN
+       IF ~r.ok THEN
+           (* an error, and nothing has changed: not the commit id, not the stores with their
+              uncommitted writes, hence not what the next Commit produces *)
+           /\ UNCHANGED <<rolled, hver, htok, work, wops, tver, tvers, trans, block>>
+           /\ Rec([a |-> "liveload", v |-> v, ok |-> FALSE, hasinfo |-> v \in DOMAIN cinfo,
+                   retained |-> (v \in 1..latest /\ Retained(v, latest)), clean |-> ~dirty,
+                   nblock |-> Len(block), rolled |-> rolled', exp |-> Obs'])
+       ELSE
+           /\ hver' = r.ver /\ htok' = r.tok
+           /\ tver' = [s \in Stores |-> r.trees[s].ver]
+           /\ tvers' = [s \in Stores |-> r.trees[s].vers]
+           /\ work' = r.c
+           /\ wops' = [s \in Stores |-> <<>>]
+           /\ trans' = EmptyMap
+           (* the uncommitted writes of the running block are gone with the old sub-stores *)
+           /\ block' = <<>>
+           /\ rolled' = (v # latest)
+           /\ Rec([a |-> "liveload", v |-> v, ok |-> TRUE, hasinfo |-> TRUE,
+                   retained |-> (v \in 1..latest /\ Retained(v, latest)), clean |-> ~dirty,
+                   nblock |-> Len(block), rolled |-> rolled', exp |-> Obs'])
 
 Finish ==
     /\ Record /\ ~fin /\ (Len(hist) >= HistLen \/ bricked)
     /\ fin' = TRUE
-    /\ UNCHANGED <<kr, ke, spal, durable, volatile, ghost, hist>>
+    /\ UNCHANGED <<conf, durable, volatile, ghost, hist>>
 
 AnyOp == {Op(s, k, v, FALSE) : s \in AllStores, k \in Keys, v \in Vals}
          \cup {Op(s, k, "", TRUE) : s \in AllStores, k \in Keys}
@@ -450,6 +553,7 @@ Next ==
     \/ \E s \in Stores : CommitPrune(s)
     \/ CommitTransient
     \/ CommitFlush
+    \/ \E v \in 1..(MaxVer + 1) : LiveLoad(v)
     \/ Crash
     \/ Reopen
     \/ Finish
@@ -462,9 +566,9 @@ PruningSeq == << <<0, 0>>, <<0, 1>>, <<0, 2>>, <<0, 3>>, <<1, 0>>, <<1, 1>>, <<1
                  <<2, 0>>, <<2, 1>>, <<2, 2>>, <<2, 3>>, <<100, 10000>> >>
 PruningsSel == {PruningSeq[i] : i \in PrunSel}
 (* CONSTRAINT of the recording configurations: one line per finished behaviour *)
-PrintHist == fin => PrintT(<<"HIST", ToJson([kr |-> kr, ke |-> ke, spal |-> spal, steps |-> hist])>>)
+PrintHist == fin => PrintT(<<"HIST", ToJson([kr |-> kr, ke |-> ke, spal |-> spal, strat |-> strat, steps |-> hist])>>)
 (* invariant wrapper for the deviation runs: print the recorded behaviour that violates P *)
-Witness(P) == P \/ (PrintT(<<"WITNESS", ToJson([kr |-> kr, ke |-> ke, spal |-> spal, steps |-> hist])>>) /\ FALSE)
+Witness(P) == P \/ (PrintT(<<"WITNESS", ToJson([kr |-> kr, ke |-> ke, spal |-> spal, strat |-> strat, steps |-> hist])>>) /\ FALSE)
 
 -----------------------------------------------------------------------------
 (* type and protocol sanity *)
@@ -474,29 +578,45 @@ TypeOK ==
     /\ \A s \in Stores : tvers[s] \subseteq DOMAIN disk[s] /\ (tver[s] = 0 \/ tver[s] \in tvers[s])
     /\ Len(committed) = Len(blocks)
     /\ started => Len(committed) >= 1
+    /\ <<strat, kr, ke>> \in Configs
+    (* a rolled-back handle sits idle at an older committed version with nothing uncommitted *)
+    /\ rolled => /\ up /\ Idle /\ ~started /\ todo = <<>> /\ block = <<>>
+                 /\ hver \in DOMAIN cinfo /\ hver < latest /\ htok = MsTok(cinfo[hver])
+                 /\ \A s \in Stores : wops[s] = <<>> /\ tver[s] = cinfo[hver][s].ver
 
 (* ---- C12 ---------------------------------------------------------------- *)
-(* Commit advances the version by exactly one (action property) *)
+(* Commit advances the version by exactly one; the only other way the version of a live handle
+   changes is a LoadVersion that SUCCEEDS: nothing durable changes and the handle shows exactly
+   what a fresh handle loading that version shows (action property) *)
 Act_VersionStep ==
-    [][ (hver' # hver /\ up /\ up') => (hver' = hver + 1 /\ latest' = hver' /\ hver' \in DOMAIN cinfo') ]_vars
+    [][ (hver' # hver /\ up /\ up') =>
+          \/ (~Idle /\ hver' = hver + 1 /\ latest' = hver' /\ hver' \in DOMAIN cinfo')
+          \/ (Idle /\ Idle' /\ durable' = durable /\ hver' >= 1 /\
+              LET r == LoadMS(hver') IN r.ok /\ r.ver = hver' /\ htok' = r.tok /\ work' = r.c
+                                        /\ trans' = EmptyMap /\ rolled' = (hver' # latest)) ]_vars
+(* a LoadVersion on the live handle whose target cannot be loaded changes nothing (every step
+   that keeps the handle idle and its version either is a write or changes nothing volatile) *)
+Act_IdleStepsKeepCommitID ==
+    [][ (up /\ up' /\ Idle /\ Idle' /\ hver' = hver) => (htok' = htok /\ tver' = tver /\ rolled' = rolled) ]_vars
 
 (* the id Commit returned (= LastCommitID) is what a freshly reopened store reports *)
 Inv_HashAgreement ==
-    (up /\ Idle /\ ~dirty) =>
+    (up /\ Idle /\ ~dirty /\ ~rolled) =>
         LET r == LoadMS(latest) IN r.ok /\ r.ver = hver /\ r.tok = htok /\ latest = hver
 
 (* every version the policy retains is loadable by a fresh handle with exactly its content *)
 Inv_RetainedReadable ==
-    (up /\ Idle /\ ~dirty) =>
+    (up /\ Idle /\ ~dirty /\ ~rolled) =>
         \A v \in 1..hver : Retained(v, hver) =>
             LET r == LoadMS(v) IN r.ok /\ r.ver = v /\ r.c = committed[v]
-(* ... and so is the latest after reopening, with every store *)
+(* ... and so is the latest after reopening, with every store; and the version a LoadVersion on
+   the live handle moved it to (no ~rolled here) *)
 Inv_LatestReadable ==
     (up /\ Idle /\ ~dirty /\ \A s \in Stores : wops[s] = <<>>) => work = ContentAt(hver)
 
 (* versions the policy prunes are unreadable; and NEVER wrong data, whatever happened *)
 Inv_PrunedUnreadable ==
-    (up /\ Idle /\ ~dirty) => \A v \in 1..hver : ~Retained(v, hver) => ~LoadMS(v).ok
+    (up /\ Idle /\ ~dirty /\ ~rolled) => \A v \in 1..hver : ~Retained(v, hver) => ~LoadMS(v).ok
 Inv_NeverWrongData ==
     \A v \in 1..(MaxVer + 1) : LET r == LoadMS(v) IN
         r.ok => (v <= Len(committed) /\ r.c = committed[v])
@@ -515,7 +635,7 @@ Inv_NoBrick == ~bricked
 Inv_RecoverAtomic ==
     (up /\ Idle /\ (\A s \in Stores : wops[s] = <<>>)) =>
         LET L == Len(committed) IN
-        /\ hver \in (IF started THEN {L - 1, L} ELSE {L})
+        /\ ~rolled => hver \in (IF started THEN {L - 1, L} ELSE {L})
         /\ work = ContentAt(hver)
 (* whatever was (re-)executed, every commit id ever flushed or reported is the one of the
    uninterrupted run *)
@@ -523,7 +643,7 @@ Inv_ReexecuteSameHash ==
     /\ \A v \in DOMAIN cinfo : v <= Len(blocks) /\ MsTok(cinfo[v]) = IdealMsTok(v)
     /\ (up /\ hver > 0) => htok = IdealMsTok(hver)
 (* the flush is atomic and nothing of a commit becomes visible before it *)
-Inv_FlushAtomic == latest \in DOMAIN cinfo \cup {0} /\ (up /\ Idle => hver = latest)
+Inv_FlushAtomic == latest \in DOMAIN cinfo \cup {0} /\ (up /\ Idle /\ ~rolled => hver = latest)
 
 (* ---- C14 ---------------------------------------------------------------- *)
 QArgs == [s : Stores, k : Keys, h : 0..(MaxVer + 1), p : BOOLEAN]
@@ -553,7 +673,7 @@ P_ProofBindsHeight(via, q, r) ==
 P_NoDataForPrunedOrFuture(via, q, r) ==
         (q.h > hver \/ (q.h # 0 /\ ~Retained(q.h, hver))) => (r.value = "<nil>" /\ ~r.proof)
 
-QState == up /\ Idle /\ ~dirty
+QState == up /\ Idle /\ ~dirty /\ ~rolled
 Inv_QueryIsCommitted ==
     QState => \A via \in {"ms", "app"} : \A q \in QArgs : P_QueryIsCommitted(via, q, QRes(via, q))
 Inv_ProofBindsHeight ==
